@@ -22,6 +22,7 @@ Consume(s, evs, i) ==
                 IN IF SeqSet(evs[i].files) # t.files THEN [s |-> t, stuck |-> i, why |-> "files_after_step"]
                    ELSE Consume(t, evs, i + 1)
 ObsClauses == {"values_equal_products", "dtype_float32", "mask_dtype_uint16", "band_names_are_indicators", "georeferencing_kept",
+               "product_files_present", "single_band_rasters",
                "config_is_loadable_json", "config_holds_completed_cfg", "config_holds_margins", "replay_accepted", "replay_same_rasters"}
 Verdict(t) ==
    LET r == Consume(Init0, t.events, 1)
